@@ -403,3 +403,10 @@ func vHrefGraphs() (int, []string) {
 
 //@ bounded vHrefGraphs svg.Parse on every href graph over three gradient/pattern definitions (125 graphs incl. self loops and cycles): returns without error
 //@   props C18 C01
+
+// preserveAspectRatio: any attribute text is accepted without panicking; malformed values keep
+// the defaults
+//@ func parsePreserveAspectRatio
+//@   props C07 C18
+//@   nopanic
+//@   modifies nothing
